@@ -28,6 +28,7 @@ EXPLANATION = (
     "R20.6 each episode is built from a freshly parsed / deep-copied scenario dict (the loaders consume theirs); R20.7 every "
     "resolved listening port reaches the append in _set_software_listen_on_ports (number or name), and no scenario mapping is read "
     "by position (`list(m.values())[i]`). R20.8 the numeric settings this property depends on are never tested by truthiness (`x or default`, `if x:`) - 0 is a legal value for them. "
+    "R20.9 a node-level fallback (`own.X = parent.X`) is taken only where the component's own declared option is unset; R20.10 = C19's R19.5 (the probability vector is index-aligned with the action map, not in file order) applied here. "
     "NOT decided: "
     "inventory equality for arbitrary scenario files and behavioural identity under re-serialisation."
 )
@@ -498,6 +499,47 @@ def r20_7(ctx: Ctx) -> None:
 
 
 
+def r20_9(ctx: Ctx) -> None:
+    """A component option that falls back to a node-level setting (`self.config.X = self.parent.X`) takes the fallback only when
+    the component's own option was not declared: the store sits behind a test that the own option is unset."""
+    ix = ctx.ix
+    ctx.rule("R20.9", "a node-level fallback never overrides a declared component option (`own.X = parent.X` only where own.X is unset)")
+    n = 0
+    for f in ix.all_functions():
+        if isinstance(f.node, ast.Lambda) or "/simulator/system/" not in f.path:
+            continue
+        g = None
+        for st in ast.walk(f.node):
+            if not (isinstance(st, ast.Assign) and len(st.targets) == 1 and isinstance(st.targets[0], ast.Attribute) and isinstance(st.value, ast.Attribute)
+                    and st.targets[0].attr == st.value.attr and "parent" in unparse(st.value.value) and unparse(st.targets[0].value).startswith("self")):
+                continue
+            g = g or CFG(f.node)
+            node = next((x for x in g.nodes if x.ast is st), None)
+            if node is None:
+                continue
+            own = st.targets[0]
+            names = {unparse(own), f"self.{own.attr}"}
+
+            def own_unset(e) -> bool:
+                if not (e.label and e.label[0] == "cond"):
+                    return False
+                x = e.label[1]
+                if isinstance(x, ast.Attribute) and x.attr == own.attr and "parent" not in unparse(x):
+                    return e.label[2] is False
+                if isinstance(x, ast.Compare) and len(x.ops) == 1 and isinstance(x.ops[0], ast.Is) and isinstance(x.left, ast.Attribute) \
+                        and x.left.attr == own.attr and "parent" not in unparse(x.left) and isinstance(x.comparators[0], ast.Constant) \
+                        and x.comparators[0].value is None:
+                    return e.label[2] is True
+                return False
+
+            p_ = g.path_avoiding([node], own_unset)
+            n += 1
+            ctx.record("R20.9", ctx.key(f, f"{unparse(own)} falls back to the node's value only when unset"), f.loc(st), p_ is None,
+                       "the fallback store is reached only where the component's own option is unset" if p_ is None else
+                       "the node-level value overwrites an option that the scenario declared for the component", path_text(p_))
+    ctx.floor("R20.9", "node-level fallbacks", n, 1)
+
+
 def check(ctx: Ctx) -> None:
     r20_1(ctx)
     r20_2(ctx)
@@ -506,5 +548,10 @@ def check(ctx: Ctx) -> None:
     r20_5(ctx)
     r20_6(ctx)
     r20_7(ctx)
+    r20_9(ctx)
+    # "key order within a mapping must not change behaviour": the probability vector of a scripted agent is index-aligned - C19's R19.5
+    from . import c19
+    with ctx.borrowed({"R19.5": "R20.10"}):
+        c19.r19_5(ctx)
     from .common import falsy_numeric
     falsy_numeric(ctx, "R20.8", r"duration|bandwidth|position|metric|weight|num_|probability|variance|frequency|start_step", "declared numeric options")
